@@ -95,6 +95,7 @@ fn run(ctx: &mut Ctx) {
         sweep_api(ctx, &spt, "transient", ORACLE, IteMode::CondInit, TAG);
     }
     f4_sweep(ctx, ORACLE, TAG);
+    deep_chain_sweep(ctx, TAG);
     if ctx.thorough() {
         // complete F_4 x F_4 for every connective (2^32 pairs each)
         let ops = pairs4_ops();
@@ -109,6 +110,16 @@ fn run(ctx: &mut Ctx) {
 }
 
 fn replay(ctx: &mut Ctx, case: &Value) {
+    if case["part"].as_str() == Some("deep-chain") {
+        let mut c2 = Ctx::new("C03", ctx.tier, ctx.seed, 0, 1);
+        deep_chain_sweep(&mut c2, TAG);
+        for v in c2.violations {
+            if v.replay == *case {
+                ctx.violation(v.key, v.what, v.replay);
+            }
+        }
+        return;
+    }
     if case["part"].as_str() == Some("named-wide") {
         replay_named_wide(ctx, case, ORACLE, TAG);
         return;
